@@ -105,6 +105,13 @@ def cases(tier, seed):
     for me in METHODS:
         for runs in (1, 2):
             out.append({"grid": "h411", "jitter": 2, "clamps": [[0, "plane"]], "link": "translation", "method": me, "iterations": 2, "frame": 4, "runs": runs})
+    # an optimizer that outlives a change of its mesh / sketch: a vertex without clamp is moved by the user after the
+    # optimizer was created (and again between two optimize() calls); it must stay where the user put it
+    for me in METHODS:
+        for runs in (1, 2):
+            out.append({"grid": "h222", "jitter": 1, "clamps": [[0, "free"]], "link": None, "method": me, "iterations": 1, "frame": 0, "runs": runs, "stale": True})
+            out.append({"grid": "s33", "jitter": 1, "clamps": [[0, "plane"]], "link": None, "method": me, "iterations": 1, "frame": 0, "runs": runs, "stale": True})
+    out.append({"grid": "h221", "jitter": 1, "clamps": [[0, "plane"]], "link": "translation", "method": "SLSQP", "iterations": 2, "frame": 0, "runs": 2, "stale": True})
     if not q:
         for cl in CLAMPS:
             for me in METHODS:
@@ -406,8 +413,24 @@ def run_case(case):
         def bad(clause, detail, **kw):  # noqa: F811
             violations.append({"clause": clause, "coords": dict(case, run=run, **kw) if runs > 1 else dict(case, **kw), "detail": detail})
 
-        initial = grid.points.copy()
-        q0 = float(grid.quality)
+        if case.get("stale"):
+            # the user moves a vertex that has no clamp and follows nobody
+            free_ids = [i for i in range(len(grid.points)) if i not in clamped and not (follower and i == follower[1]) and all(i != fi for _, fi, _ in followers2)]
+            i0 = free_ids[run % len(free_ids)]
+            if kind == "hex":
+                vtx = mesh.vertices[i0]
+                vtx.move_to(vtx.position + 0.05 * (FRAMES[fr][0] @ np.array([1.0, -0.5, 0.25])))
+                now = np.array([v.position for v in mesh.vertices])
+            else:
+                now = np.array(sketch.positions)
+                now[i0] = now[i0] + 0.05 * (now[1] - now[0])
+                sketch.update(now)
+                now = np.array(sketch.positions)
+            initial = now.copy()
+            q0 = float(type(opt)(mesh if kind == "hex" else sketch, report=False).grid.quality)
+        else:
+            initial = grid.points.copy()
+            q0 = float(grid.quality)
         calls = []
         orig = orig_optimize_clamp
 
